@@ -122,19 +122,19 @@ func zipBuild(spec any) *genFile {
 	f := &genFile{Data: data, Exp: exp, Zero: count == 0}
 	f.Desc = fmt.Sprintf("writer=%s method=%d dd=%v comment=%v members=%d", sp.Writer, sp.Method, sp.DD, sp.Comment, count)
 	if len(sp.Stamps) > 0 {
-		f.Desc += " stamps="
-		for i, st := range sp.Stamps {
-			if i > 0 {
-				f.Desc += ","
-			}
+		lab := func(st zipStamp) string {
 			if sp.DD {
-				f.Desc += fmt.Sprintf("u%d", *st.U)
+				return fmt.Sprintf("u%d", *st.U)
 			} else if st.U != nil {
-				f.Desc += fmt.Sprintf("%04x:%04x:u%d", st.D, st.T, *st.U)
-			} else {
-				f.Desc += fmt.Sprintf("%04x:%04x", st.D, st.T)
+				return fmt.Sprintf("%04x:%04x:u%d", st.D, st.T, *st.U)
 			}
+			return fmt.Sprintf("%04x:%04x", st.D, st.T)
 		}
+		all := ""
+		for _, st := range sp.Stamps {
+			all += lab(st) + ","
+		}
+		f.Desc += fmt.Sprintf(" stamps=%s..%s#%08x", lab(sp.Stamps[0]), lab(sp.Stamps[len(sp.Stamps)-1]), crc32.ChecksumIEEE([]byte(all)))
 	} else if sp.Count > 0 {
 		f.Desc += fmt.Sprintf(" name=%s payload=%s", nameLabels[sp.Name], payloads[sp.Pay].Name)
 	}
